@@ -63,8 +63,12 @@ func verifyGlobalWrites() *FuncResult {
 		name := fmt.Sprintf("C20.store.global.scan.%s[%s %s]", funcName(fn), what, g.Name())
 		res.Obls = append(res.Obls, &Obl{Fn: "package-scan", Kind: "store.global", Guard: True, Goal: False, Props: []string{"C20"}, Snip: what + " " + g.Name(), Name: name, Pos: pos})
 	}
+	initOnly := initOnlyFuncs()
 	for _, fn := range prog.allFuncsWithAnon() {
-		if excluded(fn) != "" || fn.Blocks == nil {
+		if fn.Blocks == nil || initOnly[fn] {
+			continue
+		}
+		if why := excluded(fn); why != "" && !strings.HasPrefix(funcName(fn), "initTLVHandlers") {
 			continue
 		}
 		if strings.HasSuffix(prog.Fset.Position(fn.Pos()).Filename, "_test.go") {
@@ -97,6 +101,84 @@ func inScopePkg(p *ssa.Package) bool {
 	for _, sp := range prog.SPkgs {
 		if sp == p {
 			return true
+		}
+	}
+	return false
+}
+
+
+// initOnlyFuncs: package initialisers and the functions that are (statically) called only from
+// them: their writes to package-level state happen before any conversation exists.
+func initOnlyFuncs() map[*ssa.Function]bool {
+	callers := map[*ssa.Function][]*ssa.Function{}
+	var all []*ssa.Function
+	for _, fn := range prog.allFuncsWithAnon() {
+		all = append(all, fn)
+		for _, b := range fn.Blocks {
+			for _, insn := range b.Instrs {
+				// static calls and closures created here (a closure runs on behalf of its creator)
+				if ci, ok := insn.(ssa.CallInstruction); ok {
+					if callee := ci.Common().StaticCallee(); callee != nil {
+						callers[callee] = append(callers[callee], fn)
+					}
+				}
+				if mc, ok := insn.(*ssa.MakeClosure); ok {
+					if cf, ok := mc.Fn.(*ssa.Function); ok {
+						callers[cf] = append(callers[cf], fn)
+					}
+				}
+			}
+		}
+	}
+	isInit := func(fn *ssa.Function) bool {
+		return fn.Name() == "init" || strings.HasPrefix(fn.Name(), "init#")
+	}
+	out := map[*ssa.Function]bool{}
+	for _, fn := range all {
+		if isInit(fn) {
+			out[fn] = true
+		}
+	}
+	for changed := true; changed; {
+		changed = false
+		for _, fn := range all {
+			if out[fn] || len(callers[fn]) == 0 {
+				continue
+			}
+			// a function whose address is taken may run at any time
+			ok := true
+			for _, c := range callers[fn] {
+				if !out[c] {
+					ok = false
+				}
+			}
+			if ok && !addressTaken(fn) {
+				out[fn] = true
+				changed = true
+			}
+		}
+	}
+	return out
+}
+
+func addressTaken(fn *ssa.Function) bool {
+	if fn.Referrers() == nil {
+		// package-level function: referrers are not tracked; look for uses as a value
+		for _, g := range prog.allFuncsWithAnon() {
+			for _, b := range g.Blocks {
+				for _, insn := range b.Instrs {
+					var ops []*ssa.Value
+					for _, op := range insn.Operands(ops) {
+						if op == nil || *op != ssa.Value(fn) {
+							continue
+						}
+						if ci, ok := insn.(ssa.CallInstruction); ok && ci.Common().Value == ssa.Value(fn) {
+							continue
+						}
+						return true
+					}
+				}
+			}
 		}
 	}
 	return false
